@@ -3,7 +3,33 @@ package eng
 import (
 	"hash/fnv"
 	"net"
+
+	"github.com/coredhcp/coredhcp/logger"
+	"github.com/sirupsen/logrus"
 )
+
+// caseLogLevel: the log level is a dimension of the environment (what -L debug is in production: lazily
+// formatted arguments and level-guarded code only run there). A quarter of the cases run at debug level,
+// determined by the case seed so that a replay runs at the same level.
+func caseLogLevel(seed int64) string {
+	if uint64(seed)%4 == 1 {
+		return "debug"
+	}
+	return "info"
+}
+
+// setCaseLogLevel applies caseLogLevel to the in-process logger (output stays discarded).
+func setCaseLogLevel(seed int64) string {
+	lv := caseLogLevel(seed)
+	setLogLevelName(lv)
+	return lv
+}
+
+func setLogLevelName(name string) {
+	if lv, err := logrus.ParseLevel(name); err == nil {
+		logger.GetLogger("verif").Logger.SetLevel(lv)
+	}
+}
 
 func fnv64(b []byte) uint64 {
 	h := fnv.New64a()
@@ -15,3 +41,5 @@ func parseIP(s string) net.IP { return net.ParseIP(s) }
 
 // loIface is the zero interface: an unbound listener.
 func loIface() net.Interface { return net.Interface{} }
+
+func u32ip(v uint32) net.IP { return net.IPv4(byte(v>>24), byte(v>>16), byte(v>>8), byte(v)).To4() }
